@@ -15,7 +15,7 @@ from ..lib import CheckResult, Violation
 def run(tier, seed):
     rng = random.Random(77 + seed)
     bases = decomp.base_instances(rng, per_gate=2 if tier == "quick" else 5)
-    insts = bases + decomp.symbolic_instances(rng, bases, tier)
+    insts = bases + decomp.symbolic_instances(rng, bases, tier) + decomp.template_instances(rng)
     keys, traces, meta, viol = {}, [], [], []
     n_inexact = 0
 
